@@ -133,6 +133,10 @@ pub struct StepEff {
     pub gen: String,
     pub output: String,
     pub failwrites: bool,
+    /// Generator that rewrites the manifest only when its text changes.
+    pub keepmain: bool,
+    /// A reported (not declared) file the command rewrites while it runs.
+    pub selfdisc: String,
     /// Raw depfile text to write instead of one rendered from `reads`.
     pub depfile_text: Option<String>,
 }
@@ -163,6 +167,8 @@ pub fn step_effs(g: &Value) -> Vec<StepEff> {
                 gen: eff["gen"].as_str().unwrap_or("").to_string(),
                 output: eff["output"].as_str().unwrap_or("").to_string(),
                 failwrites: eff["failwrites"].as_bool().unwrap_or(false),
+                keepmain: eff["keepmain"].as_bool().unwrap_or(false),
+                selfdisc: eff["selfdisc"].as_str().unwrap_or("").to_string(),
                 depfile_text: eff["depfile_text"].as_str().map(|s| s.to_string()),
             });
         }
